@@ -25,10 +25,16 @@ def memlen(prog, t, depth=0):
             g = prog.fns.get(c)
             if g is None:
                 return True
-            if c.endswith("QueueReader::<'a, T>::available"):
-                return _available_is_min_len(prog, g)
+            if c.endswith("QueueReader::<'a, T>::available") and _available_is_min_len(prog, g):
+                return True
             rt = Resolver(g, max_depth=12).local(0)
             return all(memlen(prog, a, depth + 1) for a in (rt[1] if rt[0] == "phi" else (rt,)))
+        last = c.rsplit("::", 1)[-1]
+        if last in ("min", "max") and len(t[2]) == 1 and "Iterator" in c:
+            # the minimum / maximum of the items of an iterator: one of the items
+            return _iter_items_memlen(prog, t[2][0], depth + 1)
+        if last in ("unwrap_or", "unwrap_or_default") and t[2]:
+            return all(memlen(prog, a, depth + 1) for a in t[2])
         if c.rsplit("::", 1)[-1] in ("min", "max", "saturating_sub", "saturating_add") and len(t[2]) == 2:
             if c.endswith("::min"):
                 return any(memlen(prog, a, depth + 1) for a in t[2])
@@ -48,6 +54,35 @@ def memlen(prog, t, depth=0):
         return t[2] in ("prototype_len",)
     if t[0] == "local":
         return False
+    return False
+
+
+def _iter_items_memlen(prog, it, depth):
+    """are all items produced by the iterator expression lengths of in-memory data? (map / filter_map over a closure
+    whose results are)"""
+    it = strip(it)
+    if it[0] != "call" or depth > 8:
+        return False
+    last = it[1].rsplit("::", 1)[-1]
+    if last in ("filter", "skip", "take", "rev", "peekable", "fuse", "copied", "cloned") and it[2]:
+        return _iter_items_memlen(prog, it[2][0], depth + 1)
+    if last in ("map", "filter_map") and len(it[2]) == 2:
+        cl = strip(it[2][1])
+        if cl[0] == "const" and isinstance(cl[2], tuple) and cl[2] and cl[2][0] == "fn":
+            return any(str(cl[2][1]).endswith(s) for s in MEM_FNS)          # .map(VecDeque::len)
+        if cl[0] == "agg" and cl[1][0] == "closure" and cl[1][1] in prog.fns:
+            g = prog.fns[cl[1][1]]
+            rt = Resolver(g, max_depth=16).local(0)
+            alts = rt[1] if rt[0] == "phi" else (rt,)
+            vals = []
+            for a in alts:
+                a = strip(a)
+                if a[0] == "agg" and a[1][0] == "adt" and a[1][1].endswith("option::Option"):
+                    if a[1][2] == "Some":
+                        vals.append(a[2][0])
+                else:
+                    vals.append(a)
+            return bool(vals) and all(memlen(prog, v, depth + 1) for v in vals)
     return False
 
 
@@ -116,7 +151,27 @@ def elem_bound(prog, iv, f, tree):
                         v = (v0, v0) if v0 is not None else None
                         out = v if first else join(out, v)
                         first = False
-        for bi, tt in g.calls(lambda c, t: c.rsplit("::", 1)[-1] in ("push", "iter_mut", "resize", "extend", "insert", "fill")):
+        # element stores through `for x in self.fld.iter_mut() { *x = v }`
+        import elems
+        n_iter_mut = len([1 for bi, tt in g.calls(lambda c, t: c.endswith("::iter_mut")) if tt["args"] and self_field(Rg.operand(tt["args"][0])) == fld])
+        n_elem_stores = 0
+        if n_iter_mut:
+            for b2 in g.cfg():
+                for st in g.blocks[b2]["stmts"]:
+                    pl = st["place"]
+                    if pl["proj"] and len(pl["proj"]) == 1 and pl["proj"][0]["k"] == "deref":
+                        tr = Rg.local(pl["local"])
+                        if tr[0] == "partial":
+                            tr = tr[1]
+                        e = elems.elem_of(tr)
+                        if e is not None and self_field(strip(e[0])) == fld and not e[1]:
+                            v = iv.rvalue(g, st["rv"], b2, 1, frozenset())
+                            out = v if first else join(out, v)
+                            first = False
+                            n_elem_stores += 1
+            if not n_elem_stores:
+                return None
+        for bi, tt in g.calls(lambda c, t: c.rsplit("::", 1)[-1] in ("push", "resize", "extend", "insert", "fill")):
             if tt["args"] and self_field(Rg.operand(tt["args"][0])) == fld:
                 return None
     return None if first else out
@@ -359,6 +414,8 @@ def _fill_bound_ok(prog, iv, f, bnd_tree):
                 tr = Rg.operand(t["args"][k - 1])
                 v = iv.operand(g, t["args"][k - 1], bi)
                 s = strip(tr)
+                if s[0] == "call" and s[1].rsplit("::", 1)[-1] == "unwrap_or" and len(s[2]) == 2:
+                    s = ("phi", (strip(s[2][0]), strip(s[2][1])))      # Some payload or the default
                 alts = s[1] if s[0] == "phi" else (s,)
                 sentinels = [a for a in alts if a[0] == "const" and isinstance(a[2], int) and a[2] > CAP]
                 others = [a for a in alts if a not in sentinels]
